@@ -123,7 +123,7 @@ class PathResult:
 
 class Engine:
     def __init__(self, facts, inline_depth=4, max_paths=4000, summaries=None, inline_filter=None,
-                 skip_tracing=True, loop_unroll=0):
+                 skip_tracing=True, loop_unroll=0, havoc_loops=False):
         self.facts = facts
         self.inline_depth = inline_depth
         self.max_paths = max_paths
@@ -131,6 +131,10 @@ class Engine:
         self.inline_filter = inline_filter
         self.skip_tracing = skip_tracing
         self.loop_unroll = loop_unroll
+        # havoc_loops: when a loop of the *root* function is entered, everything the loop can change (locals it assigns,
+        # memory behind pointers) is forgotten, so that the paths through the body describe an arbitrary iteration and not
+        # just the first one (loop-carried state such as a cache filled by an earlier iteration is then unknown)
+        self.havoc_loops = havoc_loops
         self.inlined = set()
         self.opaque = set()
 
@@ -685,6 +689,16 @@ class Engine:
                 results.append(PathResult('backedge', st, None, (body.path, src, body.where(src))))
                 return False
             fr.visits[tgt] = n + 1
+        elif self.havoc_loops and len(st.frames) == 1 and body.loop_of(tgt) is not None and src not in body.loop_of(tgt):
+            mod = body.loop_modified_locals(tgt)
+            for key in list(st.store):
+                if key[0][0] == 'S':
+                    del st.store[key]
+                elif key[0][0] == 'L' and key[0][1] == fr.fid and key[0][2] in mod and key[0][2] > body.argc:
+                    if key[1]:
+                        del st.store[key]
+                    else:
+                        st.store[key] = ('sym', 'loop:%s' % body.debug_names.get(key[0][2], '_%d' % key[0][2]))
         fr.bb = tgt
         return True
 
